@@ -296,6 +296,8 @@ def run(ctx: Ctx) -> None:
     tableau.rule_fresh_storage(ctx)
     from .c11 import rule_inverse_blocks
     rule_inverse_blocks(ctx)
+    from ..rules import effects as _eff
+    _eff.rule_weighted_fidelity(ctx)  # Infidelity on stabilizer targets: sum_i p_i F(target, branch_i)
     from .c17 import rule_metric_value
     rule_metric_value(ctx)  # Infidelity.evaluate: 1 - F, and the representation literals of its dispatch
     from ..rules import memo as _memo
